@@ -364,7 +364,7 @@ def run(ctx):
                 "of (quick: 25 per version x 4 versions; thorough: 400 x 12) segments with valid leaves and single deviations "
                 "(invalid / over-long leaf, repetitions, extra components and subcomponents, extra fields), leaf pools of every "
                 "base datatype, fields, components and messages parsed at both levels; every history of HandlesMC (quick: 4000 "
-                "sampled of length <= 4; thorough: all of length <= 4 with six ways of attaching and <= 5 with one) on Segment "
+                "sampled of length <= 4; thorough: 150000 sampled of those of length <= 4 with six ways of attaching and of those <= 5 with one) on Segment "
                 "PID, Message ADT_A01 and Group ADT_A01_INSURANCE at both levels, judged against Handles!Step and by the "
                 "STRICT/TOLERANT relation; non-trivial = accepted under STRICT")
     ctx.assumptions += ["validator errors are classified from their text (missing / limit / invalid / unknown / datatype)"]
